@@ -76,6 +76,7 @@ class Kernel:
         self.max_steps = int(knobs.get("max_steps", 300_000))
         # the step budget is a livelock detector, not a cost limit: while bytes still move through simulated pipes or
         # threads / processes still finish, exceeding it only extends it (bounded), see _advance()
+        self._fdn = {}  # real fd number -> ordinal of first appearance (digests must not depend on the inherited fd layout)
         self.progress = 0
         self._progress_mark = -1
         self._step_quantum = self.max_steps
@@ -138,6 +139,10 @@ class Kernel:
         return self.by_ident.get(_thread.get_ident())
 
     # ------------------------------------------------------------------ logging
+    def fdn(self, fd):
+        """Layout-independent name of a file descriptor for the event log."""
+        return self._fdn.setdefault(fd, len(self._fdn))
+
     def note(self, what):
         """Record an event in the digest (never draws randomness, never reads a clock)."""
         self.h.update(what.encode("utf-8", "replace"))
